@@ -182,6 +182,7 @@ type exh struct {
 	g         *Grammar
 	param     map[*ssa.Parameter]*AV // context-insensitive fixpoint
 	ctxMemo   map[string][]*Ctx
+	deadMemo  map[*ssa.Function]bool
 	getterOf  map[*ssa.Function]*types.Var // ast method → the field it returns
 	depthCap  int
 	callDepth int         // nesting of module-callee evaluation (global recursion guard)
@@ -363,6 +364,9 @@ func (e *exh) fixpoint() {
 					hasModCaller = true
 				}
 			}
+		}
+		if e.deadFn(fn) {
+			continue // unexported and never called: its parameters stay ⊥
 		}
 		if !hasModCaller || (fn.Object() != nil && fn.Object().Exported()) {
 			for _, q := range fn.Params {
@@ -1410,6 +1414,10 @@ func (e *exh) contexts(fn *ssa.Function, depth int) []*Ctx {
 		}
 	}
 	exported := fn.Object() != nil && fn.Object().Exported() && fn.Signature.Recv() == nil
+	if e.deadFn(fn) {
+		e.ctxMemo[key] = nil
+		return nil
+	}
 	if len(edges) == 0 || depth == 0 || exported {
 		out = []*Ctx{{fn: fn, desc: "any caller"}}
 		e.ctxMemo[key] = out
@@ -1484,4 +1492,46 @@ func edgeOwn(p *ssa.BasicBlock) int {
 		return 1
 	}
 	return 0
+}
+
+// deadFn: an unexported, non-synthetic function of the module that no
+// function of the module calls or takes the value of (only tests use it). It
+// is not part of the program the properties speak about.
+func (e *exh) deadFn(fn *ssa.Function) bool {
+	if d, ok := e.deadMemo[fn]; ok {
+		return d
+	}
+	if e.deadMemo == nil {
+		e.deadMemo = map[*ssa.Function]bool{}
+	}
+	d := false
+	if fn.Synthetic == "" && fn.Parent() == nil && fn.Object() != nil && !fn.Object().Exported() && fn.Name() != "init" && fn.Name() != "main" {
+		d = true
+		if n := e.p.CG.Nodes[fn]; n != nil {
+			for _, ed := range n.In {
+				if ed.Caller.Func != fn {
+					d = false
+				}
+			}
+		}
+		if d {
+			// value taken anywhere in the module?
+			for g := range e.p.AllFns {
+				if !inModule(g) || g == fn {
+					continue
+				}
+				for _, b := range g.Blocks {
+					for _, ins := range b.Instrs {
+						for _, op := range ins.Operands(nil) {
+							if *op == ssa.Value(fn) {
+								d = false
+							}
+						}
+					}
+				}
+			}
+		}
+	}
+	e.deadMemo[fn] = d
+	return d
 }
